@@ -49,7 +49,7 @@ impl Case {
     }
 }
 
-pub const FAMILIES: [&str; 9] = ["single_sub", "multiple_sub", "alternate_sub", "ligature_sub", "ligature_threshold", "single_pos", "cursive_pos", "mark_to_mark", "mark_to_lig"];
+pub const FAMILIES: [&str; 10] = ["single_pos_slots", "single_sub", "multiple_sub", "alternate_sub", "ligature_sub", "ligature_threshold", "single_pos", "cursive_pos", "mark_to_mark", "mark_to_lig"];
 
 // ---------------------------------------------------------------------------
 // expected semantics
@@ -212,6 +212,59 @@ fn build_case(c: &Case) -> (Built, Expect) {
                 m.insert(*g, e);
             }
             (Built::Gpos(wp::PositionLookup::Single(wl::Lookup::new(flag, b.build(&mut vs)))), Expect::SinglePos(m))
+        }
+        // one glyph (10); a = set of device slots (1..15) carrying a device; b = 0 Device via
+        // SinglePosBuilder, 1 Device in a hand-built SinglePos format 1, 2 VariationIndex hand-built
+        // (hand-built: only even slots also carry a value, so the format is computed from devices)
+        "single_pos_slots" => {
+            let mut e = RVal::default();
+            let mut vb = pb::ValueRecordBuilder::new();
+            let mut wv = wp::ValueRecord::new();
+            for slot in 0..4usize {
+                if c.a & (1 << slot) == 0 {
+                    continue;
+                }
+                let val = 20 + slot as i16;
+                let dv: [i8; 3] = [slot as i8 - 2, 1, -1];
+                let st = 9 + slot as u16;
+                let (o, i) = (slot as u16 + 1, 200 + slot as u16);
+                let with_value = c.b == 0 || slot % 2 == 0;
+                if with_value {
+                    e.v[slot] = val;
+                }
+                e.dev[slot] = Some(if c.b == 2 { crate::model::RDev::VarIdx(o, i) } else { crate::model::RDev::expected(st, &dv) });
+                let dev = wl::Device::new(st, st + 2, &dv);
+                vb = match slot {
+                    0 => vb.with_x_placement(val).with_x_placement_device(dev.clone()),
+                    1 => vb.with_y_placement(val).with_y_placement_device(dev.clone()),
+                    2 => vb.with_x_advance(val).with_x_advance_device(dev.clone()),
+                    _ => vb.with_y_advance(val).with_y_advance_device(dev.clone()),
+                };
+                let d: wl::DeviceOrVariationIndex = if c.b == 2 { wl::VariationIndex::new(o, i).into() } else { dev.into() };
+                if with_value {
+                    wv = match slot {
+                        0 => wv.with_x_placement(val),
+                        1 => wv.with_y_placement(val),
+                        2 => wv.with_x_advance(val),
+                        _ => wv.with_y_advance(val),
+                    };
+                }
+                wv = match slot {
+                    0 => wv.with_x_placement_device(d),
+                    1 => wv.with_y_placement_device(d),
+                    2 => wv.with_x_advance_device(d),
+                    _ => wv.with_y_advance_device(d),
+                };
+            }
+            let subs = if c.b == 0 {
+                let mut b = pb::SinglePosBuilder::default();
+                b.insert(gid(10), vb);
+                b.build(&mut vs)
+            } else {
+                let cov: wl::CoverageTable = [gid(10)].into_iter().collect();
+                vec![wp::SinglePos::format_1(cov, wv)]
+            };
+            (Built::Gpos(wp::PositionLookup::Single(wl::Lookup::new(flag, subs))), Expect::SinglePos(BTreeMap::from([(10u16, e)])))
         }
         // 3 glyphs, each: absent / entry / exit / both / neither anchor; b = anchor style
         "cursive_pos" => {
@@ -852,6 +905,13 @@ pub fn part_d(run: &Run) {
         cases.push(Case::new("single_pos", code, 0, 0));
     }
     run_cases(run, &cases, "SinglePosBuilder: 5^5 maps of 5 glyphs to {none, xAdv 5, xAdv 7, xAdv+yPla, xAdv+Device} (format 1/2 choice, grouping by record and by value format)");
+    let mut cases = vec![];
+    for mask in 1..16 {
+        for kind in 0..3 {
+            cases.push(Case::new("single_pos_slots", mask, kind, 0));
+        }
+    }
+    run_cases(run, &cases, "SinglePos device slots: every non-empty subset of the 4 device slots x {Device via SinglePosBuilder, Device hand-built, VariationIndex hand-built}");
     let mut cases = vec![];
     for code in 0..125 {
         for style in 0..3 {
